@@ -21,7 +21,7 @@ META = {
                   'rockit/multiple_shooting.py, single_shooting.py, direct_collocation.py: where coupling rows are emitted', 'rockit/direct_method.py:fill_placeholders_T/t0'],
     'bounds': 'grid classes: Uniform (localize_t0/localize_T/min/max), Geometric local/global (localize_T, min/max), FreeGrid (min/max, localize_t0), FunctionGrid; '
               'quick N in {1,2,3,4}, M in {1,2}; thorough N<=8, M<=4; horizon kinds num/free/param; MS, SS, DC; all real values of t0, T and the localized time variables',
-    'outside': 'DensityGrid/DenseEdgesGrid (CVODES + scipy bisection produce floats: not encodable; only endpoint/monotonicity of the returned numbers would be ground facts); '
+    'outside': 'DensityGrid / DenseEdgesGrid beyond a GROUND check of three polynomial densities used one after the other (CVODES + scipy bisection are not encodable); ' + 'DensityGrid/DenseEdgesGrid (CVODES + scipy bisection produce floats: not encodable; only endpoint/monotonicity of the returned numbers would be ground facts); '
                'global geometric growth: g**(1/(N-1)) is replaced by a solver real r with r^(N-1)=g, r>=1; IEEE rounding',
     'assumptions': ['reals for floats; constants identified up to 1e-10', 'T>0 assumed where strict monotonicity is concluded'],
     'explanation': 'bounded symbolic checking: real grid kernels run on z3 reals; NLP-level implications decided by z3 (QF_NRA/LRA) over all values of the time variables',
@@ -44,6 +44,7 @@ def grid_list(N):
         ('geometric', {'growth_factor': 2, 'local': True, 'localize_t0': True}),
         ('free', {}), ('free', {'min': Fr(1, 100), 'max': Fr(5)}), ('free', {'localize_t0': True, 'min': Fr(1, 100)}),
         fam.G_FUN(N),
+        ('function', dict(fam.G_FUN(N)[1], min=Fr(1, 100), max=Fr(5))),
     ]
     return gl
 
@@ -58,6 +59,8 @@ def instances(tier, seed):
     for N in Ns:
         add(kind='kernel', N=N, local=True)
         add(kind='kernel', N=N, local=False)
+    for N in ((3, 4) if tier == 'quick' else (1, 2, 3, 4, 6)):
+        add(kind='density', N=N)
     H = fam.HORIZONS
     n = 0
     methods = [('MS', 'rk'), ('SS', 'rk'), ('DC', None)]
@@ -178,7 +181,59 @@ def partition(g, N):
     return None
 
 
+def run_density(item):
+    """GROUND check (no solver: DensityGrid integrates its density with CVODES and bisects with scipy, which cannot be encoded).
+    Several density grids with DIFFERENT polynomial densities and the same N are used one after the other in this process; each must
+    equidistribute its own density (exact antiderivative), start at 0, end at 1 and increase; the grid seen by a transcribed OCP is
+    t0 + T * those nodes."""
+    import casadi as ca
+    from rockit import Ocp, MultipleShooting
+    from rockit.sampling_method import DensityGrid
+    from ..extract import quiet
+    import numpy as np
+    from fractions import Fraction as F_
+    viol, proved = [], []
+    tau = ca.MX.sym('tau')
+    dens = [('1+3 tau^2', 1 + 3 * tau ** 2, lambda s_: s_ + s_ ** 3, 2.0), ('4-3 tau', 4 - 3 * tau, lambda s_: 4 * s_ - 1.5 * s_ ** 2, 2.5),
+            ('1+2 tau', 1 + 2 * tau, lambda s_: s_ + s_ ** 2, 2.0)]
+    N = item['N']
+    for name, expr, cum, total in dens:
+        with quiet():
+            g = DensityGrid(expr)
+            n = [float(v) for v in g.normalized(N)]
+            ocp = Ocp(t0=0.5, T=2.0)
+            x = ocp.state()
+            u = ocp.control()
+            ocp.set_der(x, u)
+            ocp.subject_to(ocp.at_t0(x) == 0)
+            ocp.add_objective(ocp.integral(u * u))
+            ocp.solver('ipopt')
+            ocp.method(MultipleShooting(N=N, M=2, grid=DensityGrid(expr)))
+            ts = ocp.sample(ocp.t, grid='control')[1]
+            tv = [float(v) for v in np.array(ca.evalf(ts)).flatten()] if ca.MX(ts).is_constant() else None
+        ok = abs(n[0]) < 1e-12 and abs(n[-1] - 1) < 1e-12 and all(n[i + 1] > n[i] for i in range(N))
+        shares = [cum(v) / total for v in n]
+        eq = all(abs(shares[i] - i / N) < 1e-5 for i in range(N + 1))
+        if not ok or not eq:
+            viol.append({'property': PROP, 'key': 'density-grid|%s' % ('partition' if not ok else 'equidistribution'), 'label': 'DensityGrid(%s), N=%d' % (name, N),
+                         'detail': 'nodes %s: cumulative shares of the density at the nodes are %s, expected i/N (density grids of other densities with the same N were used before in this process)' % ([round(v, 5) for v in n], [round(v, 5) for v in shares])})
+        else:
+            proved.append('DensityGrid(%s) N=%d equidistributes its density (ground)' % (name, N))
+        if tv is not None:
+            if all(abs(tv[i] - (0.5 + 2.0 * n[i])) < 1e-9 for i in range(N + 1)):
+                proved.append('control grid of the OCP == t0 + T*nodes, DensityGrid(%s) (ground)' % name)
+            else:
+                viol.append({'property': PROP, 'key': 'density-grid|ocp-grid', 'label': 'DensityGrid(%s), N=%d' % (name, N), 'detail': 'sampled control times %s differ from t0+T*nodes %s' % (tv, [0.5 + 2 * v for v in n])})
+    res = {'stats': {}, 'obligations': len(proved) + len(viol), 'discharged': len(proved), 'nontrivial': proved, 'violations': viol, 'shape': 'density N=%d' % N,
+           'sample': {'kind': 'density (ground)', 'N': N, 'densities': [d[0] for d in dens]}}
+    if viol:
+        res['status'] = 'violation'
+    return res
+
+
 def run(item):
+    if item['kind'] == 'density':
+        return run_density(item)
     if item['kind'] == 'kernel':
         return run_kernel(item)
     spec, cfg = item['spec'], item['cfg']
